@@ -73,6 +73,7 @@ def strategy(tier):
         'consumer': st.lists(st.sampled_from([None, None, 1]), min_size=1,
                              max_size=5),
         'emitter': st.lists(st.just('emit'), max_size=2),
+        'second': st.booleans(),
         'choices': st.lists(st.integers(0, 3), max_size=80)})
     stim = st.one_of(
         st.just('ev'), st.just('ev'), st.just('recv'), st.just('recv1'),
@@ -271,14 +272,82 @@ def _execute_sync(case):
         sched.run()
     except coop.Deadlock as e:
         deadlock = e
+    second = None
+    if case.get('second') and deadlock is None and st_['final'] and \
+            all(a.done for a in actors) and not sc.connected:
+        second = _second_life_sync(socketio, sc, holder, answer)
     # release parked threads so they do not linger: mark as daemon (they are)
-    return sched, {'results': results, 'emit': emit_results,
+    return sched, {'second': second, 'results': results, 'emit': emit_results,
                    'arrivals': arrivals, 'st': st_, 'deadlock': deadlock,
                    'buf': buf, 'actors': actors, 'h': h, 'sc': sc}
 
 
+def _second_life_sync(socketio, sc, holder, answer):
+    """Sequential: connect() again on the same object, an event, an
+    ordinary loss with a successful reconnection, emit(), an event.  Returns
+    None or (kind, detail) of what went wrong."""
+    import threading
+    sc.connected_event = threading.Event()
+    sc.input_event = threading.Event()
+    try:
+        sc.connect('http://h', namespace='/ns')
+    except Exception as e:
+        return ('second-connect-failed', repr(e))
+    h = holder['h']
+
+    def on_wait(ev, timeout):
+        if ev is getattr(h.sio, '_reconnect_abort', None):
+            return
+        answer()
+    h.on_wait = on_wait
+
+    def event(n):
+        for f in wire.frames(wire.EVENT, '/ns', None, ['again', n]):
+            h.deliver(f)
+
+    def receive():
+        if not sc.input_buffer and not sc.input_event.is_set():
+            return ('second-connection-receive-hangs', 'no event signalled')
+        try:
+            v = sc.receive(timeout=1)
+        except Exception as e:
+            return ('second-connection-receive-raised', repr(e))
+        return v
+    event(1)
+    v = receive()
+    if v != ['again', 1]:
+        return v if isinstance(v, tuple) else (
+            'second-connection-event', repr(v))
+    h.plan[:] = ['ok']
+    h.lose()
+    tasks = h.reconnect_tasks()
+    if len(tasks) != 1:
+        return ('second-connection-no-reconnection',
+                '%d reconnection efforts after an ordinary loss'
+                % len(tasks))
+    tasks[0].run()
+    h.bg[:] = [b for b in h.bg if not b.done]
+    if not sc.connected_event.is_set():
+        return ('second-connection-emit-hangs', 'the reconnection '
+                'succeeded but the simple client still waits for it')
+    try:
+        sc.emit('x', 2)
+    except Exception as e:
+        return ('second-connection-emit-raised', repr(e))
+    event(2)
+    v = receive()
+    if v != ['again', 2]:
+        return v if isinstance(v, tuple) else (
+            'second-connection-event', repr(v))
+    return ('ok', '')
+
+
 def _judge_sync(case, sched, o):
     labels = {'aio': False, 'nontrivial': False}
+    if o.get('second') is not None:
+        if o['second'][0] != 'ok':
+            raise Violation(o['second'][0], o['second'][1])
+        labels['second_connection'] = True
     what = 'schedule %r' % ([(a, l) for a, l, h in sched.trace],)
     for a in o['actors']:
         if a.exc is not None:
